@@ -3,6 +3,7 @@ package main
 import (
 	"bytes"
 	"fmt"
+	"github.com/taurusgroup/multi-party-sig/pkg/math/curve"
 	"regexp"
 	"sort"
 	"strings"
@@ -213,6 +214,28 @@ func judgeResults(w *world, end *faults.End, honest []party.ID) [][2]string {
 				if c.Public == nil || c.SecretShare == nil || c.Public.IsIdentity() || c.SecretShare.IsZero() {
 					out = append(out, [2]string{"degenerate-key-material", fmt.Sprintf("party %s finished with identity key or zero share", id)})
 				}
+			}
+		}
+	case "refresh2":
+		// Doerner refresh: only one honest party; its result must keep the key and carry a NEW share
+		for _, id := range done {
+			var share curve.Scalar
+			var pub curve.Point
+			switch c := end.Parties[id].Result.(type) {
+			case *doerner.ConfigReceiver:
+				share, pub = c.SecretShare, c.Public
+			case *doerner.ConfigSender:
+				share, pub = c.SecretShare, c.Public
+			}
+			if share == nil || pub == nil || share.IsZero() {
+				out = append(out, [2]string{"degenerate-key-material", fmt.Sprintf("party %s finished the refresh with a missing or zero share", id)})
+				continue
+			}
+			if p, err := oracle.Pt(pub); err != nil || !p.Equal(w.pub) {
+				out = append(out, [2]string{"refresh-changed-group-key", fmt.Sprintf("party %s finished the refresh with another public key", id)})
+			}
+			if old := w.oldShare[id]; old != nil && oracle.Sc(share).Cmp(old) == 0 {
+				out = append(out, [2]string{"refresh-left-share-unchanged", fmt.Sprintf("party %s finished the refresh holding the share it had before: the other party's pre-refresh share still completes the key", id)})
 			}
 		}
 	case "xor":
